@@ -69,8 +69,10 @@ CLAIMS = {
             "Theorems C09_sim_zero / C09_sim_new / C09_ctor (Props/C09.lean): over operation sequences of any length the model of "
             "Middleware follows the documented debug state machine (off after creation, SetDebug no-op on passthrough, kept by successful Reconfigure, "
             "cleared by Reconfigure(nil), untouched by a failed one); C09_nonpreflight / C09_preflight_next: debug has no influence on non-preflight "
-            "requests and never lets a preflight reach the handler. Tie: history suite observing the state after every step.",
-            '6/C09', "The clause 'debug changes only the diagnostics of failing preflights' is proved for non-preflights; the precise delta on preflights (Spec.debugDelta) is covered by the tie only so far."),
+            "requests and never lets a preflight reach the handler; C09_preflight_frame: on a preflight every response header other than the six diagnostic ones "
+            "(Allow-Origin/-Credentials/-Private-Network/-Methods/-Headers, Max-Age) is identical in both debug modes; C09_preflight_success: a preflight that succeeds without debug mode succeeds with it, "
+            "with the same status and identical headers except Allow-Headers, which is either identical or the full allowed list. Tie: history suite observing the state after every step; pairs09 suite (debug on/off responses of the Go middleware).",
+            '6/C09', "None beyond the trusted base: the delta on failing preflights is bounded by C09_preflight_frame (only diagnostic headers and the status may differ) and C16_fail (debug off: nothing but Vary)."),
     'C10': ('proof', 'Lean 4 2-safety theorem (reads-only lemmas per dispatch path) + differential tie',
             "Theorems C10 / C10_accepted / C10_preserve (Props/C10.lean): for every decision oracle, accepted configuration, debug mode, pre-set headers "
             "and every ordered pair of requests with the same method agreeing (as header lookups) on the names listed in the Vary values the middleware "
